@@ -42,7 +42,8 @@ def run(ctx, mod):
     broken = []          # obligations / correspondences that no longer check
     failures = []        # concrete failing inputs (Failure)
     # 0. gate
-    bad = C.grep_gate(prop)
+    extra_files = list(getattr(mod, "EXTRA_PROPERTY_FILES", []))
+    bad = C.grep_gate(prop, extra_files)
     if bad:
         broken.append({"what": "grep gate", "detail": bad[:10]})
     # 1. regenerate the generated part of the model from /repo
@@ -50,14 +51,20 @@ def run(ctx, mod):
     for m, e in gen_err.items():
         broken.append({"what": f"translator {m} aborted (model could not be regenerated)", "detail": e})
     # 2. theorems
-    res = C.check_properties(prop, set(getattr(mod, "ALLOWED_AXIOMS", [])))
+    res = C.check_properties(prop, set(getattr(mod, "ALLOWED_AXIOMS", [])), extra_files)
     if not res["ok"]:
-        broken.append({"what": "theorem file Properties/%s.v does not check" % prop,
+        broken.append({"what": "theorem file Properties/%s.v%s does not check" % (prop, "".join(", Properties/%s.v" % n for n in extra_files)),
                        "failed_at": res.get("failed_at"), "detail": res.get("error")})
     # 2b. thorough tier: the independent checker re-checks the compiled theorems and everything they depend on
     chk = None
     if res["ok"] and not ctx.quick and os.environ.get("VERIF_NO_COQCHK") != "1":
         chk = C.coqchk(prop)
+        for n in extra_files:
+            if not chk["ok"]:
+                break
+            c2 = C.coqchk(n)
+            chk = {"ok": c2["ok"], "axioms": sorted(set(chk["axioms"]) | set(c2["axioms"])), "tit": c2["tit"], "unsafe": c2["unsafe"],
+                   "pos": c2["pos"], "log": chk["log"] + c2["log"], "seconds": round(chk["seconds"] + c2["seconds"], 1)}
         if not chk["ok"]:
             broken.append({"what": "coqchk rejects Properties/%s.vo or a file it depends on" % prop, "detail": chk["log"][-800:]})
     # 3. correspondence model <-> implementation
@@ -174,7 +181,8 @@ def run(ctx, mod):
     # 6. evidence
     cov = {"obligations": len(res["theorems"]), "discharged": res["discharged"],
            "obligation_names": res["theorems"],
-           "checker_cmd": f"cd /verif/coq && coq_makefile -f _CoqProject -o Makefile && make Properties/{prop}.vo   (coqc 8.16.1, full .vo build; regenerated Gen/*.v first)",
+           "checker_cmd": f"cd /verif/coq && coq_makefile -f _CoqProject -o Makefile && make " + " ".join(f"Properties/{n}.vo" for n in [prop] + extra_files) + "   (coqc 8.16.1, full .vo build; regenerated Gen/*.v first)",
+           "obligations_per_file": res.get("files"),
            "trusted_base": list(getattr(mod, "TRUSTED", [])) + ["axioms reported by Print Assumptions in this run: " + json.dumps(res["axioms"])],
            "axioms_per_theorem": res["axioms"],
            "generated_from_source": getattr(mod, "GEN", []),
@@ -182,7 +190,7 @@ def run(ctx, mod):
            "search_evaluations": searched,
            "property_oracle_on_correspondence_cases": oracle_checked, "property_oracle_crashes": oracle_crashes}
     if chk:
-        cov["coqchk"] = {"cmd": f"coqchk -silent -o -Q . SX SX.Properties.{prop}", "accepted": chk["ok"], "seconds": chk["seconds"],
+        cov["coqchk"] = {"cmd": "coqchk -silent -o -Q . SX " + " ".join(f"SX.Properties.{n}" for n in [prop] + extra_files), "accepted": chk["ok"], "seconds": chk["seconds"],
                          "axioms_in_the_checked_context": chk["axioms"], "type_in_type": chk["tit"], "unsafe_fixpoints": chk["unsafe"],
                          "assumed_positivity": chk["pos"]}
     if cor:
